@@ -260,6 +260,7 @@ package iavl
 //@ func (*Node).has(node, t, key) (ok, err)
 //@   props C01 C11
 //@   requires node != nil && t != nil && t.ndb != nil && valid(node)
+//@   ensures [leaf] err == nil && old(node.subtreeHeight) == 0 ==> ok == (ord(key) == old(ord(node.key)))
 //@   ensures [one-read-per-level] calls("Node).getLeftNode") + calls("Node).getRightNode") <= 1 && calls("Node).has$") <= 1
 //@   ensures [frame] nframe(old(heap(N)), heap(N), old(na))
 //@   modifies nodeDB.mtx[*], Statistics.*[*]
